@@ -5,6 +5,7 @@ import Ark.Proofs.Rejects
 import Ark.Props.C16World
 import Ark.Proofs.GenBridge.BookPool
 import Ark.Proofs.GenBridge.BookArchetype
+import Ark.Proofs.GenBridge.BookCache
 
 namespace Ark.Props.C16
 open Ark
@@ -104,5 +105,11 @@ theorem src_bitPool_reset : type_of% @Ark.GenBridge.Book.bitPool_reset_eq := @Ar
 theorem src_intPool_reset : type_of% @Ark.GenBridge.Book.intPool_reset_eq := @Ark.GenBridge.Book.intPool_reset_eq
 /-- `entityPool.Reset` as in the source: slice truncated to the reserved entries, free list emptied -/
 theorem src_pool_reset' : type_of% @Ark.GenBridge.Book.entityPool_reset_eq := @Ark.GenBridge.Book.entityPool_reset_eq
+
+
+/-! ### The code itself: the bookkeeping of cache.go, translated statement by statement on every run -/
+
+/-- `cache.Reset` as in the source = the model's: nothing to do when no filter is registered, otherwise entries, index map and ID pool are dropped -/
+theorem src_cache_reset : type_of% @Ark.GenBridge.Book.cache_reset_eq := @Ark.GenBridge.Book.cache_reset_eq
 
 end Ark.Props.C16
